@@ -39,7 +39,8 @@ pub const FAULT_TOKENS: [&str; 24] = [
 ];
 
 /// Module kinds for module histories through one Compiler.
-pub const MODULE_KINDS: [(&str, &str); 12] = [
+pub const MODULE_KINDS: [(&str, &str); 13] = [
+	("opaque structure", "struct Handle;\nfn {f}(h: &Handle) -> i32\n{\n\treturn: 1\n}\n"),
 	("print", "fn {f}()\n{\n\tprint!(\"a\");\n}\n"),
 	("format", "fn {f}()\n{\n\tvar x: i32 = 7;\n\tvar n: usize = len_of(format!(\"a\", x));\n}\nfn len_of(text: []char8) -> usize\n{\n\treturn: |text|\n}\n"),
 	("abort", "fn {f}(x: i32)\n{\n\tif x == 0\n\t{\n\t\tabort!();\n\t}\n}\n"),
